@@ -2,7 +2,7 @@
 # seed_run.sh <Cxx> : evaluate /tmp/mut_<Cxx>_out/m1,m2 (meta.json driven) with tools/try_seed.sh
 P=$1
 PFX=${SEED_PREFIX:-mut}       # mut = first round, mut2 = second round (seed ids get the suffix r2)
-SFX=""; [ "$PFX" = "mut" ] || SFX="r2"
+SFX=""; case "$PFX" in mut) SFX="";; mut2) SFX="r2";; mut3) SFX="r3";; *) SFX="$PFX";; esac
 export SEED_WT=/tmp/${PFX}_$P
 for i in 1 2; do
   M=/tmp/${PFX}_${P}_out/m$i
